@@ -240,3 +240,42 @@ def generation_writers(run, tier, with_bounded=True):
                "each line break is followed by >= 4 characters; len() is additive over +; validated at run time by the bounded part",
                "A-ext: PrettyPrinter(width=w).pprint(s) writes one physical line iff len(repr(s)) <= w; print(x, file=f) of a number writes one line")
     return failed, sfailed, found
+
+
+def hessian_layout(run, with_reader=True):
+    """Layout of the flattened Hessian: the three writer loops of test_all_Fisher.convert_params, the reader in
+    simplifier.convert_params, and the lemma that reading what was written gives the matrix back.  Returns the failed obligations."""
+    import z3
+    from contracts import c_fisher, c_simplifier
+    from pyvc.lemmas import TRIST, trist_axioms
+    lemma_library(run)
+    failed = []
+    for w in (0, 1, 2):
+        st, f, _e = verify_function(run, "fitting/test_all_Fisher.py", "convert_params", (lambda w=w: c_fisher.hessian_writer_contract(w)), timeout_ms=8000,
+                                    tag="Hessian writer %d" % w, note="region: the loop that flattens the upper triangle of the Hessian into deriv (copy %d of 3)" % w)
+        failed += f
+    if canary(run, "fitting/test_all_Fisher.py", "convert_params", (lambda: c_fisher.hessian_writer_contract(0))) is False:
+        raise RuntimeError("canary verified: engine vacuous on the Hessian writer")
+    if with_reader:
+        st, f, _e = verify_function(run, "generation/simplifier.py", "convert_params", c_simplifier.fish_reader_contract, timeout_ms=8000, tag="Hessian reader",
+                                    note="region: np.zeros / triu_indices store / symmetrisation / truncation to the parameters handed in")
+        failed += f
+        M, K = z3.Ints("M K")
+        D_ = z3.Function("deriv", z3.IntSort(), z3.RealSort())
+        H_ = z3.Function("H", z3.IntSort(), z3.IntSort(), z3.RealSort())
+        F_ = z3.Function("fish", z3.IntSort(), z3.IntSort(), z3.RealSort())
+        r, c = z3.Ints("r c")
+        lo, hi = z3.If(r <= c, r, c), z3.If(r <= c, c, r)
+        W = z3.ForAll([r, c], z3.Implies(z3.And(0 <= r, r <= c, c < K), D_(TRIST(M, r) + c - r) == H_(r, c)))
+        R = z3.ForAll([r, c], z3.Implies(z3.And(0 <= r, r < K, 0 <= c, c < K), F_(r, c) == D_(TRIST(M, lo) + hi - lo)))
+        r0, c0 = z3.Ints("r0 c0")
+        lo0, hi0 = z3.If(r0 <= c0, r0, c0), z3.If(r0 <= c0, c0, r0)
+        bad = prove_lemmas(run, "Hessian layout", [
+            ("reader(writer(H))[r, c] = H[min(r,c), max(r,c)] for r, c < number of parameters (same max_param on both sides)",
+             z3.Implies(z3.And(W, R, 1 <= K, K <= M, 0 <= r0, r0 < K, 0 <= c0, c0 < K), F_(r0, c0) == H_(lo0, hi0)))])
+        if bad:
+            run.notes.append("Hessian layout composition lemma not proved: %s" % (bad,))
+            failed += [type("L", (), {"name": "lemma/Hessian layout", "clause": bad[0][0], "status": "unknown", "backend": "z3", "goal": "", "pc": [], "model": bad[0][1]})()]
+    run.assume("A-ext: np.triu_indices(n) enumerates the upper triangle row by row ((r, c) at position r n - r (r - 1) / 2 + c - r); validated at run time",
+               "both stages use the number of parameter columns of negloglike_comp<c>.dat as max_param (read off the two call sites: params_proc.shape[1], params_meas.shape[1])")
+    return failed
